@@ -5,7 +5,7 @@ from ..net import *
 ID = "C19"
 LEVEL = "exploration"
 RULE = ("split/break: network R-p1-J1-p2-J2-p3-T (+ J2-p4-J3 dead end) in the variants {plain, p2 with two vertices, p2 with one vertex, "
-        "p3 with check valve, p2 initially closed, time control on p2, minor loss on p2, pipe from the reservoir / into the tank} x "
+        "p3 with check valve, p2 initially closed, time control on p2, minor loss on p2, pipe from the reservoir / into the tank, pipe joining reservoir and tank directly} x "
         "EVERY pipe x fraction {0, 0.25, 1/3, 0.5, 1} x add_pipe_at_end {T,F} x return_copy {T,F} x {split, break}.  skeletonize: 10 "
         "networks with branch / series / parallel patterns next to tanks, pumps, valves and controlled elements x all diameter "
         "assignments over {0.1, 0.3} (thorough {0.1,0.2,0.3}) x thresholds {0.05, 0.1, 0.2, 0.3} x on/off combinations of branch/"
@@ -38,6 +38,8 @@ def sb_base(variant):
         s["links"].append(P("p5", "J1", "J2", L=700.0, D=0.2))
     elif variant == "minor":
         link(s, "p2")["K"] = 4.0
+    elif variant == "direct":       # a pipe that joins the reservoir and the tank directly
+        s["links"].append(P("p5", "R", "T", L=900.0, D=0.15))
     elif variant != "plain":
         raise KeyError(variant)
     return s
@@ -53,11 +55,13 @@ def sb_build(s):
 
 def sb_cases(tier):
     out = []
-    for variant in ("plain", "vertices2", "vertices1", "cv", "closed", "control", "minor"):
+    for variant in ("plain", "vertices2", "vertices1", "cv", "closed", "control", "minor", "direct"):
         s = sb_base(variant)
         pipes = [l["n"] for l in s["links"]]
         if tier == "quick" and variant in ("closed", "control", "minor", "vertices1"):
             pipes = ["p2"]
+        if variant == "direct":
+            pipes = ["p5"] if tier == "quick" else ["p5", "p3"]
         for pn, f, at_end, rc, mode in itertools.product(pipes, FRACTIONS, (True, False), (True, False), ("split", "break")):
             if tier == "quick" and not rc and (mode == "break" or f not in (0.25, 1.0)):
                 continue
